@@ -1,6 +1,6 @@
 (* C05 — Units run in order; the first error aborts the message and is reported once
    Statements only: each theorem is closed by `exact` of a lemma proved in the *_proofs.v files. *)
-From VF Require Import Base Gen_Errors Lexer Grammar Response Tree Tree_proofs HeaderSpec MessageSpec Message_proofs.
+From VF Require Import Base Gen_Errors Lexer Grammar Response Tree Tree_proofs HeaderSpec MessageSpec Message_proofs Message_proofs2.
 Open Scope N_scope.
 
 Section C05_statements.
@@ -61,6 +61,17 @@ Theorem C05_spec_units_trace_extends : forall (root ctx : tree D) us d f tr d' f
   spec_units root ctx us d f tr = (d', f', tr', e) -> exists added, tr' = tr ++ added.
 Proof. apply spec_units_trace_extends. Qed.
 
+Theorem C05_message_semantics_empty : forall (root : tree D) (w : list byte) (nl : bool) (d : D) (f : fmt),
+  wf_ws w = true ->
+  run root (w ++ (if nl then [10] else [])) d f = Val (spec_message root (mkMsg w [] nl) d f).
+Proof. apply message_semantics_empty. Qed.
+
+Theorem C05_message_semantics_trailing_separator : forall (root : tree D) (m : msg) (w : list byte) (d : D) (f : fmt),
+  wf_tree root -> wf_msg m = true -> wf_ws w = true ->
+  run root (m_lead m ++ render_units (m_units m) ++ 59 :: w ++ (if m_nl m then [10] else [])) d f
+  = Val (spec_message root m d f).
+Proof. apply message_semantics_trailing_separator. Qed.
+
 End C05_statements.
 
 Print Assumptions C05_hook_exactly_once.
@@ -75,3 +86,5 @@ Print Assumptions C05_layout_independent.
 Print Assumptions C05_spec_units_ok_trace.
 Print Assumptions C05_spec_units_err_trace.
 Print Assumptions C05_spec_units_trace_extends.
+Print Assumptions C05_message_semantics_empty.
+Print Assumptions C05_message_semantics_trailing_separator.
